@@ -158,12 +158,24 @@ func (m *monitor) buildOrGetRemote(n *node, ctx context.Context, id, via string)
 			m.violate("open-tombstoned-id:storage-created:"+via, "storage of a tombstoned id was created", det)
 		}
 	}
+	if hasEntry && pre == headstorage.DeletedStatusDeleted && preSt {
+		// not the carve-out: only a *queued* id may still be opened from its
+		// local storage; "deleted" means the deleter is done with it
+		m.tombstonedAttempts++
+		w.count("attempt.open_deleted_with_leftover_storage."+errClass(err), 1)
+		if err == nil {
+			m.violate("open-deleted-id:succeeded:leftover-storage", "an id whose tombstone status is 'deleted' was opened from storage that exists locally after its deletion",
+				map[string]any{"node": n.idx, "id": w.label(id), "via": via, "status_before": statusName(pre), "storage_before": preSt})
+		}
+	}
 	if err == nil && !preSt && postSt && obj != nil && obj.Parent != "" {
 		m.lateChild(n, obj, parentPre, "fetch")
 	}
 	if !preSt && postSt && pre == headstorage.DeletedStatusNotDeleted && n.status(id) >= headstorage.DeletedStatusQueued && (obj == nil || obj.Parent == "") {
-		// tombstone arrived while the fetch was in flight (not judged, see FINDINGS observations)
-		w.count("race.fetch_completed_after_tombstone", 1)
+		// tombstone arrived while the fetch was in flight: the fetch itself is not
+		// judged (it started before the deletion was recorded), its consequences are
+		w.count("race.fetch_completed_after_tombstone."+statusName(n.status(id)), 1)
+		w.logf("n%d storage of %s created by a fetch that was in flight when the tombstone (%s) was recorded", n.idx, w.label(id), statusName(n.status(id)))
 	}
 	return tr, err
 }
